@@ -32,4 +32,10 @@ from sa.engine.fields import method_table  # noqa: E402
 mt = method_table(repo)
 json.dump(mt, open(os.path.join(VERIF, "sa", "engine", "methods.json"), "w"), indent=0, sort_keys=True)
 print(sum(len(v) for v in mt.values()), "private methods")
+pub = {}
+for name, lst in sorted(repo.classes.items()):
+    for rel, cls in lst:
+        if not rel.endswith("_trio.py"):
+            pub[f"{rel}::{name}"] = sorted(m.name for m in cls.body if isinstance(m, (ast.FunctionDef, ast.AsyncFunctionDef)) and not m.name.startswith("_"))
+json.dump(pub, open(os.path.join(VERIF, "sa", "engine", "public_methods.json"), "w"), indent=0, sort_keys=True)
 print(len(table), "classes,", sum(len(v) for v in table.values()), "fields")
